@@ -89,6 +89,18 @@ fn run_final_n<N: Analysis<Main> + Default>(ops: &[Op], orig_index: &[usize], rh
                 })
                 .collect();
             s.push_str(&format!("|inv:{}", inv.join(",")));
+            // the e-nodes of each handle's class as seen through the handle (`enodes_applied`, with the caller's slot names):
+            // how many slots each of them has, as a sorted list — bound and redundant slots must come back fresh whatever the
+            // caller's names are
+            let ena: Vec<String> = tr
+                .iter()
+                .map(|a| {
+                    let mut v: Vec<usize> = eg.enodes_applied(&eg.find_applied_id(a)).iter().map(|n| n.slots().len()).collect();
+                    v.sort();
+                    v.iter().map(|x| x.to_string()).collect::<Vec<_>>().join(".")
+                })
+                .collect();
+            s.push_str(&format!("|ena:{}", ena.join(",")));
         }
         s
     })
@@ -380,6 +392,8 @@ fn rename_case(rng: &mut Rng) -> Case {
     let mut renamings: Vec<(&str, Vec<u32>)> = Vec::new();
     let rev = |v: &Vec<u32>| v.iter().rev().copied().collect::<Vec<u32>>();
     renamings.push(("numeric-ascending", numeric.clone()));
+    // (`$0`, `$1`, ..: the names stored shapes use for their own binders)
+    renamings.push(("numeric-from-zero", (0..n as u32).map(|i| 4 * i).collect()));
     renamings.push(("numeric-reversed", rev(&numeric)));
     renamings.push(("named-reversed", rev(&named)));
     renamings.push(("f-names-above-counter", freshlike.clone()));
